@@ -166,9 +166,9 @@ def arbitration_worker(item):
         fa = {k: x for k, x in R.name_fields(a).items() if k != 'reserved_bit'}
         fa['arbitrary_address_capable'] = 0
         ea = R.name_value(fa)
-        for b in others:
+        for b in list(others) + [ea]:
             eb = b & ~(1 << 48)
-            if ea == eb:
+            if ea == eb and b is not ea:
                 continue
             w = rt.World()
             rt.activate(w)
@@ -184,6 +184,15 @@ def arbitration_worker(item):
                 w.run_for(0.002)
                 kept = ca.state == CA.State.NORMAL and ca.device_address == 0x20
                 acc.case(('arb', ea, eb), outcome=(kept,))
+                if ea == eb:
+                    # equal 64-bit values (an echo of the own claim, a duplicate): neither lower nor higher - the CA keeps the
+                    # address and does not answer
+                    n_own = len([f for f in bus.log if f.src == 'X'])
+                    if not kept or n_own != 1:
+                        acc.violation("a claim carrying the CA's own NAME is not treated as equal", sc, None,
+                                      "value=%016X: %s, %d frame(s) sent by the CA (1 = its own claim)" % (ea, 'kept the address' if kept else 'gave the address up', n_own))
+                        return acc
+                    continue
                 if kept != (ea < eb):
                     acc.violation("address arbitration does not compare the 64-bit NAME values", sc, None,
                                   "value=%016X (own) vs %016X (contender): %s" % (ea, eb, 'kept the address' if kept else 'gave the address up'))
